@@ -82,7 +82,18 @@ impl Parser {
         let either_flags_or_ident = children.next().unwrap();
 
         let (flags, mut ident) = if either_flags_or_ident.as_rule() == Rule::assignment_flags {
+            let flags_span = either_flags_or_ident.as_span();
             let flags = Self::assignment_flags(either_flags_or_ident).to_err_vec()?;
+
+            // nothing enforces these qualifiers on a field: `const x: int` could be reassigned through
+            // `obj.x = ..` like any other field, so do not let the declaration promise otherwise
+            if flags.contains(AssignmentFlag::constant()) {
+                return Err(vec![new_err(
+                    flags_span,
+                    &input.user_data().get_source_file_name(),
+                    "`const` is not supported on a class field: every field can be assigned through `self.field = ..` / `object.field = ..`".to_owned(),
+                )]);
+            }
 
             let ident = children.next().unwrap();
             let ident = Self::ident(ident).to_err_vec()?;
